@@ -490,7 +490,12 @@ def register(E):
             except (ValueError, UnicodeDecodeError):
                 return (0, Iface(OPQ, OpaqueErr('atoi')))
         if type(s) is OpaqueStr and s.tag == 'dec':
-            return (s.parts[0], None)
+            x, bits, signed = s.parts
+            if not signed:
+                # an unsigned decimal of 2^63 or more does not fit an int: Atoi reports a range error
+                if E.branch(E.cmp_int('>=', x, 1 << 63, 64, False)):
+                    return ((1 << 63) - 1, Iface(OPQ, OpaqueErr('atoi: value out of range')))
+            return (x, None)
         raise Unsupported('strconv.Atoi of %r' % (s,))
     I['strconv.Atoi'] = strconv_atoi
 
